@@ -33,7 +33,8 @@ func Anchors() []time.Time {
 func KindGraph() []*triple.Triple {
 	var ts []*triple.Triple
 	T := model.T
-	ints := []int64{-5, -3, 0, 2, 10}
+	// the outer two are more than 2^63 apart (a comparison by subtraction wraps around) and cancel in sums
+	ints := []int64{-6000000000000000000, -3, 0, 2, 6000000000000000000}
 	floats := []float64{-1.5, -0.25, 0, 0.1, 1e21}
 	texts := []string{"a", "a!", "b", "B", "ab"}
 	nodes := []*node.Node{model.N("/u", "z"), model.N("/t", "a"), model.N("/u", "a"), model.N("/u", "a0"), model.N("/u", "B")}
